@@ -261,23 +261,30 @@ class MessagePackRpc(MessagePackDocument):
 
         else:
             msgtype, msgid, msgname_or_error, msgparams = ctx.in_document
+            if msgparams is None:
+                msgparams = []
 
         if not six.PY2:
             if isinstance(msgname_or_error, bytes):
-                msgname_or_error = msgname_or_error.decode(
+                try:
+                    msgname_or_error = msgname_or_error.decode(
                                                    self.default_string_encoding)
+                except UnicodeDecodeError as e:
+                    raise MessagePackDecodeError(repr(e))
 
-        if msgtype == MessagePackRpc.MSGPACK_REQUEST:
-            assert message == MessagePackRpc.REQUEST
+        if msgtype == MessagePackRpc.MSGPACK_REQUEST \
+                                       and message == MessagePackRpc.REQUEST:
+            pass
 
-        elif msgtype == MessagePackRpc.MSGPACK_RESPONSE:
-            assert message == MessagePackRpc.RESPONSE
-
-        elif msgtype == MessagePackRpc.MSGPACK_NOTIFY:
-            raise NotImplementedError()
+        elif msgtype == MessagePackRpc.MSGPACK_RESPONSE \
+                                      and message == MessagePackRpc.RESPONSE:
+            pass
 
         else:
-            raise MessagePackDecodeError("Unknown message type %r" % msgtype)
+            # a response where a request is due (or the other way round), a
+            # notification (not supported), or something that is no type at all
+            raise MessagePackDecodeError("Unexpected message type %r"
+                                                                 % (msgtype,))
 
         ctx.method_request_string = '{%s}%s' % (self.app.interface.get_tns(),
                                                                msgname_or_error)
